@@ -111,7 +111,7 @@ def run_tensor_case(ctx, c, outcome, rng):
             elif rt == 'mul':
                 res = teneva.mul(Y, Y)
             elif rt in ('func_int', 'func_gets', 'func_int_sin'):
-                if min(n) < 2:
+                if min(n) < 2 and rt != 'func_gets':      # interpolation needs two nodes; evaluation on the grid does not
                     continue
                 res = teneva.func_int(Y) if rt == 'func_int' else teneva.func_gets(Y) if rt == 'func_gets' else teneva.func_int(Y, kind='sin')
             elif rt == 'scalars':
@@ -208,7 +208,8 @@ def run_data_case(ctx, c, rng, known):
             elif rt == 'als_adaptive':
                 if d < 3:
                     continue
-                res = teneva.als(I, y, teneva.rand(n, 1, seed=2), nswp=2, r=3, info={})
+                Y0 = teneva.rand(n, 1, seed=2) if fl[0] == 'rank1' else teneva.rand(n, 3 + max(n), seed=2)
+                res = teneva.als(I, y, Y0, nswp=2, r=3 if fl[0] == 'rank1' else 3 + max(n), info={})
             elif rt == 'anova':
                 if any(k < 1 for k in n):
                     continue
